@@ -113,12 +113,14 @@ Definition spec_step1 (l : list K) (o : op) : list K * res ret :=
   | Snapshot => (l, Ok (RSnap l l l (rev l) (seq 0 (length l))))
   | SelfOp _ => (l, Raise (OtherExn 11))
   | Cmp k o => (l, Ok (RBool (s_cmp k l o)))
+  | SelfMix _ _ => (l, Raise (OtherExn 11))
   end.
 
 (* an operand that is the set itself is an IndexedSet holding the same items *)
 Definition spec_step (l : list K) (o : op) : list K * res ret :=
   match o with
   | SelfOp k => spec_step1 l (expand_self k (Opd true l))
+  | SelfMix k os => spec_step1 l (expand_mix k (map (resolve_self l) os))
   | _ => spec_step1 l o
   end.
 
